@@ -3,6 +3,10 @@
 // geometries and prints one case per line (property C01).
 //
 // A class written "name@k" means: the lattice case was rescaled exactly by 2^k (all operands).
+// Classes "pencil" / "pencilx": concurrent edges (genpencil.go); for a pair the kinds field carries
+// "#size,q=..,m=..,maxdir=..,maxc=..,cross=.." (estimated size of the exact arrangement, denominator
+// of the concurrency point, number of segments through it, largest direction component, largest
+// ordinate of those segments, number of crossing abscissae).
 //
 // Line formats (tab separated); a result is "name|dump|v" (v = 1 when result.Validate() == nil)
 // or "name|ERR|message":
@@ -199,7 +203,8 @@ func main() {
 	pairKinds := map[string]int{}
 	listLens := map[int]int{}
 	scaleHist := map[int]int{}
-	concCount := 0
+	pencilCount, pencilLists := 0, 0
+	pencilSizes := map[int]int{}
 	for i := 0; i < a.N && timeouts < maxTimeouts; i++ {
 		r := root.Fork()
 		general := i%10 == 7 || i%20 == 19
@@ -219,19 +224,38 @@ func main() {
 			continue
 		}
 		if i%10 == 5 || i%30 == 9 {
-			// ---------------- concurrent edges: 3..6 segments through one non-vertex point
-			cclass := "conc"
+			// ---------------- pencil: 3..6 segments of integer operands through one non-vertex point
 			sc := 0
-			if r.Chance(1, 4) {
+			if r.Chance(1, 5) {
 				sc = scaleExp(r)
-				cclass = fmt.Sprintf("conc@%d", sc)
+			}
+			cclass := ""
+			note := func(g *pencilGen, cnt, size int) {
+				cclass = "pencil"
+				if !pencilFull(cnt, size, a.Tier == "thorough", i%30 == 9) {
+					cclass = "pencilx"
+				}
+				classes[cclass+"_cases"]++
+				if sc != 0 {
+					cclass = fmt.Sprintf("%s@%d", cclass, sc)
+				}
+				pencilSizes[size/50]++
+				classes["pencil_q"+fmt.Sprint(g.q)]++
+				classes[fmt.Sprintf("pencil_m%d", len(g.segs))]++
+				if g.found {
+					classes["pencil_relation_found_by_search"]++
+				}
+				for k := range g.rel {
+					classes["pencil_rel_"+k]++
+				}
+				if len(g.rel) == 0 {
+					classes["pencil_rel_one_bucket"]++
+				}
 			}
 			if i%30 == 9 {
-				ms, found := concList(r, concCount)
-				concCount++
-				if found {
-					classes["conc_relation_found"]++
-				}
+				ms, g, size := pencilList(r, pencilLists, a.Tier == "thorough")
+				note(g, pencilLists, size)
+				pencilLists++
 				gs := make([]geom.Geometry, len(ms))
 				fields := []string{fmt.Sprintf("%d", i), "N", cclass, fmt.Sprintf("%d", len(ms))}
 				for j, m := range ms {
@@ -246,21 +270,19 @@ func main() {
 				if f, ok := overlayDump("OVM", geom.NewGeometryCollection(gs).AsGeometry(), geom.Geometry{}); ok {
 					fields = append(fields, f)
 				}
-				classes["many_conc"]++
+				classes["many_pencil"]++
 				fmt.Fprintln(w, strings.Join(fields, "\t"))
 				continue
 			}
-			na, nb, shape, found := concPair(r, concCount)
-			concCount++
-			if found {
-				classes["conc_relation_found"]++
-			}
+			na, nb, ka, kb, g, size := pencilPair(r, pencilCount, a.Tier == "thorough")
+			note(g, pencilCount, size)
+			pencilCount++
 			if sc != 0 {
 				na, nb = scaleNode(na, sc), scaleNode(nb, sc)
 			}
-			classes["pair_conc"]++
-			pairKinds["conc:"+shape]++
-			fmt.Fprintln(w, strings.Join(pairFields(i, cclass, shape, na.Build(), nb.Build()), "\t"))
+			classes["pair_pencil"]++
+			pairKinds["pencil:"+kindNames[ka]+"x"+kindNames[kb]]++
+			fmt.Fprintln(w, strings.Join(pairFields(i, cclass, kindNames[ka]+"x"+kindNames[kb]+fmt.Sprintf("#%d,%s", size, g.describe()), na.Build(), nb.Build()), "\t"))
 			continue
 		}
 		if i%5 == 4 {
@@ -334,7 +356,7 @@ func main() {
 		fields := pairFields(i, class, kindNames[ka]+"x"+kindNames[kb], ga, gb)
 		fmt.Fprintln(w, strings.Join(fields, "\t"))
 	}
-	stats := map[string]interface{}{"classes": classes, "pair_kinds": pairKinds, "list_lengths": listLens, "generator": st.m, "overlays_dumped_through_hook": overlaysDumped, "scale_exponent_decades": scaleHist}
+	stats := map[string]interface{}{"classes": classes, "pair_kinds": pairKinds, "list_lengths": listLens, "generator": st.m, "overlays_dumped_through_hook": overlaysDumped, "scale_exponent_decades": scaleHist, "pencil_size_estimate_div50": pencilSizes}
 	js, _ := json.Marshal(stats)
 	fmt.Fprintf(w, "#GEN\t%s\n", js)
 }
